@@ -38,3 +38,17 @@ Proof.
   - intros Hex. rewrite <- Ho in Hex. destruct (cutf_fault_status fault s0 Hc Hex) as (e & He).
     exists e. rewrite Hst. exact He.
 Qed.
+
+(* without pos_sized the first clause of preload_file fails: an empty child at the very start of its parent is stepped
+   over, never requested - the file "" "aaa" "bbb" preloads although its first block is unavailable *)
+Definition ex_empty_first : blk :=
+  Pb (Some [8; 2; 24; 6; 32; 0; 32; 3; 32; 3]%N)
+     [PLink (Some []) (Some 0) (Raw []); PLink (Some []) (Some 3) (Raw [97; 97; 97]%N); PLink (Some []) (Some 3) (Raw [98; 98; 98]%N)].
+Theorem leading_empty_child_refuted :
+  exists b fault, well_sized b = true
+    /\ (exists x, In x (tl (preorder b)) /\ fault x <> None)
+    /\ drain_all (stream fault b 0) [] [] = ([97; 97; 97; 98; 98; 98]%N, tl (tl (preorder b)), StEOF).
+Proof.
+  exists ex_empty_first, (fun x => if blk_eqb x (Raw []) then Some (ELoad 1) else None).
+  split; [vm_compute; reflexivity|]. split; [exists (Raw []); split; [left; reflexivity|vm_compute; discriminate]|vm_compute; reflexivity].
+Qed.
